@@ -18,22 +18,33 @@ EOLS = {"E3": ["CRLF", "LF", "CR"], "E2": ["CRLF", "LF"], "E1": ["CRLF"]}
 BODIES = ["none", "cl0", "cl", "ch1", "ch2x", "ch2t", "ch0"]
 
 
-def real_lines(inp, cuts, eolnames):
+def real_lines(inp, cuts, eolnames, maxline=0):
+    """-> (lines, remainder, LineTooLong raised).  maxline > 0: the module constant MAX_LINE_SIZE is set to the model's
+    small limit for the duration of the call (the functions read the global at call time)"""
     from hio.core.http import httping
     eols = tuple({"CRLF": httping.CRLF, "LF": httping.LF, "CR": httping.CR}[e] for e in eolnames)
     raw = bytearray()
-    gen = httping.parseLine(raw=raw, eols=eols)
-    out = []
-    pos = 0
-    for k in cuts:
-        raw.extend(b"".join(SYM[s] for s in inp[pos:pos + k]))
-        pos += k
-        while True:
-            line = next(gen)
-            if line is None:
-                break
-            out.append(bytes(line))
-    return out, bytes(raw)
+    saved = httping.MAX_LINE_SIZE
+    if maxline:
+        httping.MAX_LINE_SIZE = maxline
+    try:
+        gen = httping.parseLine(raw=raw, eols=eols)
+        out = []
+        pos = 0
+        for k in cuts:
+            raw.extend(b"".join(SYM[s] for s in inp[pos:pos + k]))
+            pos += k
+            while True:
+                try:
+                    line = next(gen)
+                except httping.LineTooLong:
+                    return out, None, True
+                if line is None:
+                    break
+                out.append(bytes(line))
+        return out, bytes(raw), False
+    finally:
+        httping.MAX_LINE_SIZE = saved
 
 
 class Dummy:
@@ -88,6 +99,8 @@ def parse_stream(kind, frags, close_at_end):
         return "raised", "did not return"
     except Exception as ex:
         return "raised", "%s: %s" % (type(ex).__name__, ex)
+    if results and results[-1]["errored"]:
+        return results, None            # parsing stopped: what is left unread depends on how much was fed, not on the parser
     return results, bytes(p.msg)
 
 
@@ -160,32 +173,105 @@ def run_pipe(ctx, kind, pipe, quick, full_two_cuts):
     return None
 
 
+def stretch(tokens, i, total):
+    """lengthen line token i (its terminator is the next token) to `total` bytes without changing what kind of line it is"""
+    t = tokens[i]
+    pad = total - len(t)
+    if i == 0:
+        if t.startswith("HTTP/"):
+            t = t + "K" * pad                      # status line: longer reason phrase
+        else:
+            a, b = t.split("?x=1", 1)
+            t = a + "?x=1" + "1" * pad + b         # request line: longer query
+    elif ":" in t:
+        t = t + "v" * pad                          # header / trailer field: longer value
+    elif ";" in t:
+        t = t + "e" * pad                          # chunk size line with extensions: longer last extension
+    else:
+        t = t + ";e=" + "e" * (pad - 3)            # chunk size line: an extension
+    assert len(t) == total, (tokens[i], total, len(t))
+    return tokens[:i] + [t] + tokens[i + 1:]
+
+
+def long_lines(ctx, kind, one):
+    """lines around the length limit MAX_LINE_SIZE at real scale: start line, a header field, a chunk size line and a trailer
+    field of MAX-1, MAX and MAX+1 bytes, cut near every token boundary (1 and 2 cuts); as always: every fragmentation must
+    give what the whole feed gives"""
+    from hio.core.http import httping
+    mx = httping.MAX_LINE_SIZE
+    picks = {}
+    for pipe in one:
+        m = pipe[0]
+        key = (m["m"]["body"], m["m"]["eol"])
+        if key[0] in ("ch2t", "cl", "ch2x") and m["m"]["hdrs"] == 0 and m["m"]["conn"] == "none" and m["m"]["ver"] == "1.1" \
+                and m["m"].get("pre", "none") == "none" and key not in picks:
+            picks[key] = pipe
+    n = 0
+    for key, pipe in sorted(picks.items()):
+        toks = list(pipe[0]["tokens"])
+        lines = [0, 2]                                                     # start line, Host field
+        after_head = next(i for i in range(len(toks) - 1) if toks[i] in ("\r\n", "\n") and toks[i + 1] in ("\r\n", "\n")) + 2
+        if key[0].startswith("ch"):
+            lines.append(after_head)                                       # first chunk size line
+        lines += [i for i, t in enumerate(toks) if t.startswith("T-One")]  # a trailer field
+        for li in lines:
+            for total in (mx - 1, mx, mx + 1):
+                st = stretch(toks, li, total)
+                data = "".join(st).encode("latin-1")
+                bounds = list(itertools.accumulate(len(t) for t in st))[:-1]
+                near = sorted({b + d for b in bounds for d in (-2, -1, 0, 1, 2) if 0 < b + d < len(data)})
+                start, end = sum(len(t) for t in st[:li]), sum(len(t) for t in st[:li + 1])
+                close_at_end = pipe[0]["expect"]["untilclose"]
+                whole = parse_stream(kind, [data], close_at_end)
+                parts = [[data[:i], data[i:]] for i in near]
+                around = [c for c in near if start - 2 <= c <= end + 4]
+                parts += [[data[:i], data[i:j], data[j:]] for i in around for j in near if j > i]
+                ctx.case(("long", kind, key, li, total - mx))
+                for frags in parts:
+                    n += 1
+                    got = parse_stream(kind, frags, close_at_end)
+                    if got != whole:
+                        desc = lambda r: ("raised " + r[1]) if r[0] == "raised" else \
+                            "%d message(s)%s" % (len(r[0]), "".join(", errored: %s" % (x["error"],) for x in r[0] if x["errored"]))
+                        ctx.violation("%s: a %s message whose line %d is %d bytes long (MAX_LINE_SIZE %+d), cut at %s, gives %s; fed at once: %s" % (
+                            "Requestant" if kind == "req" else "Respondent", key, li, total, total - mx,
+                            [len(f) for f in frags][:-1], desc(got), desc(whole)),
+                            {"kind": "long", "side": kind, "tokens": toks, "line": li, "delta": total - mx,
+                             "cuts": list(itertools.accumulate(len(f) for f in frags))[:-1], "close": close_at_end})
+                        break
+    ctx.parts = getattr(ctx, "parts", 0) + n
+
+
 def run(ctx):
     gen = {"MCLineFrame.tla": "---- MODULE MCLineFrame ----\nEXTENDS LineFrameGen\n" +
            "".join("%s == %s\n" % (k, core.tlaval.to_tla(v)) for k, v in EOLS.items()) + "====\n"}
     nmc, ngen = (6, 5) if ctx.quick else (7, 6)
-    for ename, eols in EOLS.items():
-        r = ctx.tlc("http", "MCLineFrame", core.cfg_text(constants={"Eols": "<-" + ename, "MaxLen": nmc, "Algo": '"earliest"'},
-                                                          invariants=["Confluent", "PrefixOfWhole"]), gen=gen)
+    # (terminator list, line length limit): 0 = no limit reached within the strings; 2 = lines of 1, 2, 3.. bytes around the limit
+    for ename, maxline in [(e, 0) for e in EOLS] + [("E3", 2), ("E2", 2), ("E1", 2)]:
+        eols = EOLS[ename]
+        lc = {"Eols": "<-" + ename, "Algo": '"earliest"', "MaxLine": maxline, "Limit": '"held"'}
+        r = ctx.tlc("http", "MCLineFrame", core.cfg_text(constants=dict(lc, MaxLen=nmc), invariants=["Confluent", "PrefixOfWhole"]), gen=gen)
         for v in r.violated:
-            ctx.violation("the line framing model (%s) violates %s" % (eols, v), {"tlc": r.out[-3000:]})
-        g = ctx.tlc("http", "MCLineFrame", core.cfg_text(constants={"Eols": "<-" + ename, "MaxLen": ngen, "Algo": '"earliest"'},
-                                                          constraints=["Dump"]), gen=gen, workers=1)
+            ctx.violation("the line framing model (%s, limit %d) violates %s" % (eols, maxline, v), {"tlc": r.out[-3000:]})
+        g = ctx.tlc("http", "MCLineFrame", core.cfg_text(constants=dict(lc, MaxLen=ngen), constraints=["Dump"]), gen=gen, workers=1)
         cases = g.tagged_json("LF")
         if len(cases) < 1000:
             raise core.MachineryError("line framing dump too small: %d" % len(cases))
         for c in cases:
             inp = list(c["input"] or [])
-            want = ([b"".join(SYM[s] for s in (l or [])) for l in (c["out"] or [])], b"".join(SYM[s] for s in (c["raw"] or [])))
+            want = ([b"".join(SYM[s] for s in (l or [])) for l in (c["out"] or [])],
+                    None if c["err"] else b"".join(SYM[s] for s in (c["raw"] or [])), c["err"])
             try:
-                got = real_lines(inp, c["cuts"] or [], eols)
+                got = real_lines(inp, c["cuts"] or [], eols, maxline)
             except Exception as ex:
                 got = "raised %s: %s" % (type(ex).__name__, ex)
-            ctx.case(("line", ename, "".join(inp), tuple(c["cuts"] or [])))
+            ctx.case(("line", ename, maxline, "".join(inp), tuple(c["cuts"] or [])))
             if got != want:
-                ctx.violation("parseLine with terminators %s on %r read as %s gives %r, should give lines %r and keep %r" % (
-                    eols, b"".join(SYM[s] for s in inp), c["cuts"], got, want[0], want[1]),
-                    {"kind": "line", "eols": eols, "input": inp, "cuts": c["cuts"], "want": [[l.decode() for l in want[0]], want[1].decode()]})
+                ctx.violation("parseLine with terminators %s%s on %r read as %s gives %r, should give lines %r, %s" % (
+                    eols, " and MAX_LINE_SIZE %d" % maxline if maxline else "", b"".join(SYM[s] for s in inp), c["cuts"], got, want[0],
+                    "and LineTooLong" if want[2] else "keep %r" % want[1]),
+                    {"kind": "line", "eols": eols, "input": inp, "cuts": c["cuts"], "maxline": maxline,
+                     "want": [[l.decode() for l in want[0]], None if want[1] is None else want[1].decode(), want[2]]})
     # message level
     for kind in ("req", "resp"):
         bodies = set(BODIES) | ({"close"} if kind == "resp" else set())
@@ -196,6 +282,7 @@ def run(ctx):
                                                                       "Restrict": True},
                                                            constraints=["Emit"]), workers=1).tagged_json("MSG")
         two = [p for p in two if len(p) > 1]
+        long_lines(ctx, kind, one)
         if len(one) < 150 or len(two) < 400:
             raise core.MachineryError("message dump too small: %d, %d" % (len(one), len(two)))
         import random
@@ -222,8 +309,16 @@ def run(ctx):
 
 def replay_case(ctx, case):
     if case["kind"] == "line":
-        want = ([l.encode() for l in case["want"][0]], case["want"][1].encode())
-        got = real_lines(case["input"], case["cuts"] or [], case["eols"])
+        w = case["want"] + [False] * (3 - len(case["want"]))
+        want = ([l.encode() for l in w[0]], None if w[1] is None else w[1].encode(), w[2])
+        got = real_lines(case["input"], case["cuts"] or [], case["eols"], case.get("maxline", 0))
         return [] if got == want else ["parseLine gives %r, should give %r" % (got, want)]
+    if case["kind"] == "long":
+        from hio.core.http import httping
+        st = stretch(case["tokens"], case["line"], httping.MAX_LINE_SIZE + case["delta"])
+        data = "".join(st).encode("latin-1")
+        cuts = [0] + case["cuts"] + [len(data)]
+        got = parse_stream(case["side"], [data[a:b] for a, b in zip(cuts, cuts[1:])], case["close"])
+        return [] if got == parse_stream(case["side"], [data], case["close"]) else ["the cut feed differs from the whole feed"]
     bad = run_pipe(ctx, case["side"], case["pipe"], False, True)
     return [bad] if bad else []
